@@ -3,7 +3,10 @@
 //! A case (one REPLAY line) is
 //!   {"cfg": {"own": [{k,v}], "extent": {kind,a,b}, "ambient": [{k,v}], "clock": 0|t,
 //!            "rtf": <filter tree>, "csf": <filter tree>|{"op":"absent"}, "em": <emitter tree>,
-//!            "entry": "rt"|"rt_as_emitter"|"core"|"macro"|"macro_evt"|"direct"},
+//!            "entry": "rt"|"rt_as_emitter"|"core"|"macro"|"macro_evt"|"direct"
+//!                   | "macro_lvl" (info!) | "evt_macro" (emit!(evt: evt!(extent: ..)))
+//!                   | "span_evt" | "metric_evt" (Span / Metric with an explicit extent through Runtime::emit)
+//!                   | "span_guard" | "span_macro" (SpanGuard / new_span!: extent = clock .. clock2)},
 //!    "expect": {"ev": {"props": [{k,v}], "ext": {kind,a,b}}, "deliver": [{"id": leaf id, "ev": event it must receive}],
 //!               "leaves": [leaf id],
 //!               "eff": [filter leaf id, in order], "wraps": [filter leaf id], "bypass": bool},
@@ -81,10 +84,34 @@ fn extent_obs(x: Option<&Extent>) -> (String, u64, u64) {
 fn snapshot<P: Props>(evt: &Event<P>) -> (Vec<KV>, (String, u64, u64)) {
     let mut props = Vec::new();
     let _ = evt.props().for_each(|k, v| {
-        props.push((k.get().to_string(), v.cast::<i64>().unwrap_or(i64::MIN)));
+        props.push((k.get().to_string(), as_i64(&v).unwrap_or(i64::MIN)));
         ControlFlow::Continue(())
     });
     (props, extent_obs(evt.extent()))
+}
+
+/// Values are integers in the model; what the entry points add themselves (evt_kind,
+/// span / metric names, lvl) is read back as the integer the model uses for it.
+fn as_i64(v: &emit::Value) -> Option<i64> {
+    if let Some(i) = v.by_ref().cast::<i64>() {
+        return Some(i);
+    }
+    if let Some(k) = v.by_ref().cast::<emit::Kind>() {
+        return Some(match k {
+            emit::Kind::Span => 31,
+            emit::Kind::Metric => 32,
+            _ => 39,
+        });
+    }
+    if let Some(l) = v.by_ref().cast::<emit::Level>() {
+        return Some(match l {
+            emit::Level::Debug => 51,
+            emit::Level::Info => 52,
+            emit::Level::Warn => 53,
+            emit::Level::Error => 54,
+        });
+    }
+    v.by_ref().cast::<emit::Str>().and_then(|s| s.get().parse::<i64>().ok())
 }
 
 /// The leaf predicates of spec/Emit.tla, evaluated on the event the filter is given.
@@ -107,6 +134,8 @@ fn eval_pred<P: Props>(pred: &str, evt: &Event<P>) -> bool {
         "ext_none" => evt.extent().is_none(),
         "ext_point" => evt.extent().map_or(false, |e| e.is_point()),
         "ext_range" => evt.extent().map_or(false, |e| e.is_range()),
+        "ext_inverted" => evt.extent().and_then(|e| e.as_range()).map_or(false, |r| r.end < r.start),
+        "ext_empty" => evt.extent().and_then(|e| e.as_range()).map_or(false, |r| r.end == r.start),
         "ext_clock" => evt.extent().map_or(false, |e| e.is_point() && *e.as_point() == ts(CLOCK_T)),
         "ext_9" => evt.extent().map_or(false, |e| e.is_point() && *e.as_point() == ts(9)),
         p => tool_error(&format!("unknown predicate {p}")),
@@ -116,13 +145,26 @@ fn eval_pred<P: Props>(pred: &str, evt: &Event<P>) -> bool {
 // ---- environment -------------------------------------------------------------------------
 struct ScriptClock {
     reading: Option<u64>,
+    /// what the second and later reads return when the clock works (span guards read twice)
+    later: Option<u64>,
+    reads: std::sync::atomic::AtomicUsize,
     id: u64,
     log: Log,
+}
+impl ScriptClock {
+    fn new(reading: Option<u64>, id: u64, log: &Log) -> Self {
+        ScriptClock { reading, later: None, reads: Default::default(), id, log: log.clone() }
+    }
 }
 impl emit::Clock for ScriptClock {
     fn now(&self) -> Option<Timestamp> {
         self.log.push(Ent::Clock(self.id));
-        self.reading.map(ts)
+        let n = self.reads.fetch_add(1, std::sync::atomic::Ordering::SeqCst);
+        match (n, self.reading, self.later) {
+            (_, None, _) => None,
+            (0, r, _) => r.map(ts),
+            (_, r, l) => l.or(r).map(ts),
+        }
     }
 }
 
@@ -241,7 +283,7 @@ fn nested_runtime<E: Emitter>(t: &Value, em: E, log: &Log) -> Runtime<E, DF, Fix
         em,
         dyn_filter(&t["f"], log),
         FixedCtxt { props: pairs(&t["amb"]), id, log: log.clone() },
-        ScriptClock { reading: match t["clock"].as_u64().unwrap() { 0 => None, c => Some(c) }, id, log: log.clone() },
+        ScriptClock::new(match t["clock"].as_u64().unwrap() { 0 => None, c => Some(c) }, id, log),
         emit::Empty,
     )
 }
@@ -450,7 +492,7 @@ fn run_entry<F: Filter, CF: Filter, E: Emitter>(cfg: &Value, rtf: F, csf: Option
     let own = pairs(&cfg["own"]);
     let own: &[(&'static str, i64)] = &own;
     let ext = extent_of(&cfg["extent"]);
-    let clock = ScriptClock { reading: match cfg["clock"].as_u64().unwrap() { 0 => None, t => Some(t) }, id: 0, log: log.clone() };
+    let clock = ScriptClock::new(match cfg["clock"].as_u64().unwrap() { 0 => None, t => Some(t) }, 0, log);
     let ctxt = FixedCtxt { props: pairs(&cfg["ambient"]), id: 0, log: log.clone() };
     let evt = Event::new(emit::Path::new_raw("m"), emit::Template::literal("t"), ext.clone(), own);
     let entry = cfg["entry"].as_str().unwrap();
@@ -473,6 +515,63 @@ fn run_entry<F: Filter, CF: Filter, E: Emitter>(cfg: &Value, rtf: F, csf: Option
     log.take()
 }
 
+/// The entry points that build the event themselves or through other macros; exercised with
+/// type-erased components only (keeps the stamped generic instantiations small).
+const EXTRA_ENTRIES: [&str; 6] = ["macro_lvl", "evt_macro", "span_evt", "metric_evt", "span_guard", "span_macro"];
+
+fn run_entry_extra(cfg: &Value, rtf: DF, csf: Option<DF>, em: DE, log: &Log) -> Vec<Ent> {
+    let own = pairs(&cfg["own"]);
+    let own: &[(&'static str, i64)] = &own;
+    let ext = extent_of(&cfg["extent"]);
+    let mut clock = ScriptClock::new(match cfg["clock"].as_u64().unwrap() { 0 => None, t => Some(t) }, 0, log);
+    clock.later = cfg["clock2"].as_u64().filter(|c| *c != 0);
+    let ctxt = FixedCtxt { props: pairs(&cfg["ambient"]), id: 0, log: log.clone() };
+    let entry = cfg["entry"].as_str().unwrap();
+    let rt = Runtime::build(em, rtf, ctxt, clock, emit::Empty);
+    match (entry, csf) {
+        ("macro_lvl", None) => emit::info!(rt, extent: ext, props: own, "t"),
+        ("macro_lvl", Some(cf)) => emit::info!(rt, when: cf, extent: ext, props: own, "t"),
+        ("evt_macro", None) => {
+            let evt = emit::evt!(extent: ext, props: own, "t");
+            emit::emit!(rt, evt: evt)
+        }
+        ("evt_macro", Some(cf)) => {
+            let evt = emit::evt!(extent: ext, props: own, "t");
+            emit::emit!(rt, when: cf, evt: evt)
+        }
+        ("span_evt", _) => rt.emit(emit::span::Span::new(emit::Path::new_raw("m"), "41", ext, own)),
+        ("metric_evt", _) => rt.emit(emit::metric::Metric::new(emit::Path::new_raw("m"), "42", "43", ext, 44i64, own)),
+        // what #[span] / new_span! expand to, with properties only known at run time
+        ("span_guard", _) => {
+            let (mut guard, frame) = emit::span::SpanGuard::new(
+                rt.filter(),
+                rt.ctxt(),
+                rt.clock(),
+                rt.rng(),
+                emit::span::completion::Default::<_, _, emit::Level>::new(rt.emitter(), rt.ctxt()),
+                emit::Empty,
+                emit::Path::new_raw("m"),
+                "41",
+                own,
+            );
+            frame.call(move || {
+                guard.start();
+            });
+        }
+        ("span_macro", _) => {
+            if !own.is_empty() {
+                tool_error("span_macro takes no own properties");
+            }
+            let (mut guard, frame) = emit::new_span!(rt, "41");
+            frame.call(move || {
+                guard.start();
+            });
+        }
+        _ => tool_error(&format!("entry {entry}")),
+    }
+    log.take()
+}
+
 fn csf_of(cfg: &Value, log: &Log) -> Option<DF> {
     if cfg["csf"]["op"] == "absent" {
         None
@@ -483,6 +582,9 @@ fn csf_of(cfg: &Value, log: &Log) -> Option<DF> {
 
 fn run_dynamic(cfg: &Value) -> Vec<Ent> {
     let log = Log::default();
+    if EXTRA_ENTRIES.contains(&cfg["entry"].as_str().unwrap()) {
+        return run_entry_extra(cfg, dyn_filter(&cfg["rtf"], &log), csf_of(cfg, &log), dyn_emitter(&cfg["em"], &log), &log);
+    }
     run_entry(cfg, dyn_filter(&cfg["rtf"], &log), csf_of(cfg, &log), dyn_emitter(&cfg["em"], &log), &log)
 }
 
@@ -729,15 +831,18 @@ fn main() {
         }
         let dynamic = catch(|| run_dynamic(cfg));
         let mut runs: Vec<(String, Result<Vec<Ent>, String>)> = vec![("erased".into(), dynamic)];
-        if let Some(run) = reg.rtf.get(&shape_of(&cfg["rtf"])) {
+        let extra = EXTRA_ENTRIES.contains(&cfg["entry"].as_str().unwrap());
+        if extra {
+            // erased components only
+        } else if let Some(run) = reg.rtf.get(&shape_of(&cfg["rtf"])) {
             runs.push(("generic runtime filter".into(), catch(|| run(cfg))));
         }
-        if cfg["csf"]["op"] != "absent" {
+        if !extra && cfg["csf"]["op"] != "absent" {
             if let Some(run) = reg.csf.get(&shape_of(&cfg["csf"])) {
                 runs.push(("generic call-site filter".into(), catch(|| run(cfg))));
             }
         }
-        if let Some(run) = reg.em.get(&shape_of(&cfg["em"])) {
+        if let Some(run) = reg.em.get(&shape_of(&cfg["em"])).filter(|_| !extra) {
             runs.push(("generic destinations".into(), catch(|| run(cfg))));
         }
         n_static += runs.len() as u64 - 1;
@@ -752,7 +857,11 @@ fn main() {
                             case,
                             json!({"path": path, "failures": bad.into_iter().take(4).collect::<Vec<_>>(), "log": log_json(log)}),
                         );
-                    } else if log_json(log) != case["logB"] && drift.len() < 20 {
+                    } else if log_json(log) != case["logB"]
+                        && drift.len() < 20
+                        // (a span guard reads the ambient context several times; not transcribed)
+                        && !cfg["entry"].as_str().unwrap().starts_with("span_")
+                    {
                         drift.push(json!({"what": "order of the log differs from the transcription", "path": path,
                                           "cfg": cfg, "got": log_json(log), "logB": case["logB"]}));
                     }
